@@ -58,7 +58,7 @@ TEXT = {
         engine="choice (E1)",
         design_ref="DESIGN.md §3 C14",
         technique="bounded-exhaustive enumeration of firmware memory images through the real probe + DriverInit",
-        text="~64k images (thorough: all four tables): root pointer at every admissible 16-byte slot of the search window, revision 0/2, decoys with a valid signature and bad checksum before/after, every order of the listed tables, every subset corrupted, FADT with 32-/64-bit/both DSDT pointers, DSDT valid/corrupt, a root pointer with a bad checksum only, bad-checksum structures corrupted in the first 20 bytes or only in the extended part, of the same or the other revision, arbitrary bytes behind a revision-0 structure, listed tables and DSDTs of 2047..200000 bytes filled with large byte values; plus the first/last admissible slots of the real 0xe0000-0xfffff area. Oracles: the pointer is found iff valid, the 32-bit root table is followed for revision 0 and the 64-bit one otherwise, the registered table map equals {tables whose bytes sum to zero} plus the DSDT of a valid FADT, each corrupt table is reported as skipped exactly once and enumeration continues.",
+        text="~64k images (thorough: all four tables): root pointer at every admissible 16-byte slot of the search window, revision 0/2, decoys with a valid signature and bad checksum before/after, every order of the listed tables, every subset corrupted, FADT with 32-/64-bit/both DSDT pointers, DSDT valid/corrupt, a root pointer with a bad checksum only, bad-checksum structures corrupted in the first 20 bytes or only in the extended part, of the same or the other revision, arbitrary bytes behind a revision-0 structure, listed tables and DSDTs of 2047..200000 bytes filled with large byte values; plus the first/last admissible slots of the real 0xe0000-0xfffff area. Oracles: the pointer is found iff valid, the 32-bit root table is followed for revision 0 and the 64-bit one otherwise, the registered table map equals {tables whose bytes sum to zero} plus the DSDT of a valid FADT, each corrupt table is reported as skipped exactly once and enumeration continues. After every case the same driver is initialised again on the image with a shortened root table and must agree with a freshly probed driver.",
         note="Identity-map seams; the revision-2 checksum is taken over the 40-byte Go struct (4 bytes after the structure kept zero).",
     ),
     "C15": dict(
